@@ -5,6 +5,7 @@ mod gen_fun_ast;
 mod gen_fun_check;
 mod gen_fun_eval;
 mod gen_fun_mutate;
+mod gen_fun_reduce;
 mod rec;
 mod rng;
 mod sexp;
@@ -67,6 +68,7 @@ fn main() {
     // commands whose 4th argument is not an output file
     match arg(1) {
         "genfun" => { cmd_genfun::cmd_genfun(num(2, 1), num(3, 10) as usize, if arg(4).is_empty() { "genfun-out" } else { arg(4) }, args.get(5..).unwrap_or(&[])); return; }
+        "genfun-reduce" => { cmd_genfun::cmd_reduce(num(2, 1), num(3, 0) as usize, arg(4), arg(5), args.get(6..).unwrap_or(&[])); return; }
         "genfun-mutants" => { cmd_genfun::cmd_mutants(num(2, 1), num(3, 100) as usize, args.get(4..).unwrap_or(&[])); return; }
         "genfun-stats" => { cmd_genfun::cmd_stats(num(2, 1), num(3, 100) as usize, args.get(4..).unwrap_or(&[])); return; }
         _ => {}
